@@ -539,6 +539,7 @@ class PyCdlib:
                  'eltorito_boot_catalog', 'isohybrid_mbr', '_managing_fp', 'xa',
                  '_needs_reshuffle', '_rr_moved_record', '_rr_moved_name',
                  '_rr_moved_rr_name', 'enhanced_vd', 'version_vd', 'inodes',
+                 '_layout_changed',
                  'interchange_level', '_write_check_list', '_track_writes',
                  'udf_beas', 'udf_nsr', 'udf_teas', 'udf_anchors',
                  'udf_main_descs', 'udf_reserve_descs',
@@ -583,6 +584,7 @@ class PyCdlib:
         self.udf_file_set = udfmod.UDFFileSetDescriptor()
         self.udf_file_set_terminator = None  # type: Optional[udfmod.UDFTerminatingDescriptor]
         self._needs_reshuffle = False
+        self._layout_changed = False
         self._rr_moved_record = dr.DirectoryRecord()
         self._rr_moved_name = None  # type: Optional[bytes]
         self._rr_moved_rr_name = None  # type: Optional[bytes]
@@ -3096,6 +3098,8 @@ class PyCdlib:
             if self.udf_logical_volume_integrity is not None:
                 self.udf_logical_volume_integrity.size_tables[0] += num_extents_to_add
 
+        self._layout_changed = True
+
         if self._always_consistent:
             self._reshuffle_extents()
         else:
@@ -3130,6 +3134,8 @@ class PyCdlib:
             self.udf_reserve_descs.partitions[0].part_length -= num_extents_to_remove
             if self.udf_logical_volume_integrity is not None:
                 self.udf_logical_volume_integrity.size_tables[0] -= num_extents_to_remove
+
+        self._layout_changed = True
 
         if self._always_consistent:
             self._reshuffle_extents()
@@ -4572,6 +4578,11 @@ class PyCdlib:
 
         if hasattr(self._cdfp, 'mode') and not self._cdfp.mode.startswith(('r+', 'w', 'a', 'rb+')):
             raise pycdlibexception.PyCdlibInvalidInput('To modify a file in place, the original ISO must have been opened in a write mode (r+, w, or a)')
+
+        if self._layout_changed:
+            # The in-memory layout no longer matches the layout of the file
+            # that was opened, so the locations we would write to are wrong.
+            raise pycdlibexception.PyCdlibInvalidInput('Cannot modify a file in place after other changes have been made to the ISO; write out the ISO and open it again first')
 
         child = self._find_iso_record(utils.normpath(iso_path))
 
